@@ -8,7 +8,7 @@ HERE = os.path.dirname(os.path.dirname(os.path.abspath(__file__)))
 BUILT = {
  "C01": ("exploration",
          "Tens of thousands (quick) to a million (thorough) generated source programs are lowered to registries exactly as scale-info does (model self-checked against real scale-info at every run), generated with varied settings and random registry order, and for EVERY type id the type the generator names is interpreted inside the parsed output and compared with the registry type by coinductive SCALE-shape equality. Exploration is the right level: the property quantifies over all registries; no finite model exists, so breadth of generated type graphs with an exact oracle is what is attainable.",
-         "Trusts the harness' table of std/scale-info shapes for external paths, the lowering model (validated against scale-info 2.11.5 on a corpus of real derives each run) and syn. Coincidental (non-CF) programs are discarded and counted. Substitute targets are assumed wire-faithful.",
+         "Trusts the harness' table of std/scale-info shapes for external paths, the lowering model (validated against scale-info 2.11.5 on a corpus of real derives each run) and syn. Coincidental (non-CF) programs are discarded and counted. Substitute targets are assumed wire-faithful. Since the second session the programs include bit store/order parameters, path-qualified type names, Compact<()> and the duplicate equal-content entries real registries have (one level of scale-info's Identity); constructed regression probes pin two seeded changes; sub-registries of the Polkadot metadata are used for the ids admitted by the registry-only coincidence certificate (cert.rs).",
          "proptest-driven tape generator of source programs + differential oracle (registry shape vs interpreted generated items, coinductive bisimulation)",
          "DESIGN.md sections 3, 4.2, 5 C01"),
  "C02": ("exploration",
@@ -18,12 +18,12 @@ BUILT = {
          "DESIGN.md section 5 C02"),
  "C03": ("exploration",
          "Bounded-exhaustive enumeration of the catalogue of same-path families (Appendix B: all ordered pairs of members over small parameter lists, field terms and arguments, both registry orders; level 0 complete and level 1 strided in the quick tier, level 1 complete and level 2 strided in the thorough tier) plus random programs with associated-type and two-version definitions; oracle: generation succeeds only if every member is wire-faithfully represented by the kept item, and after ensure_unique_type_paths generation succeeds and the same holds.",
-         "Uses the C01 shape oracle; coincidental families are skipped and counted; the known finding dedup:renamed-path-collides is excluded by construction from part (b) and covered by its probe.",
+         "Uses the C01 shape oracle; coincidental families are skipped and counted; the known finding dedup:renamed-path-collides is excluded by construction from part (b) and covered by its probe. Random families include near-miss versions (a definition copied with ONE mutation) and group versions (a whole group of definitions copied to the same paths, one copy mutated); a duplicate path that survives de-duplication is tolerated as the known finding only on registries of that finding's shape, otherwise it is dedup:insufficient.",
          "bounded-exhaustive family enumeration + proptest-driven random families against the property-shaped shape oracle",
          "DESIGN.md section 5 C03, Appendix B"),
  "C04": ("exploration",
          "Tens of thousands to a million generated registries with same-path families (generic instantiations, associated-type definitions, two versions with several shapes, names ending in digits, random order) plus closed sub-registries of the Polkadot metadata are put through ensure_unique_type_paths and the result is compared with the input clause by clause (frame condition, all-or-nothing renaming, numbering by first appearance, instantiations of one coincidence-free definition stay together, idempotence, no DuplicateTypePath afterwards).",
-         "Whether two groups really differ in shape is C03's oracle; the ground truth for 'instantiations of one definition' comes from the source program and is used for coincidence-free programs only. Registries with the known finding's shape (family next to an existing Name<digits>) are excluded and counted.",
+         "Whether two groups really differ in shape is C03's oracle; the ground truth for 'instantiations of one definition' comes from the source program and is used for coincidence-free programs only. Registries with the known finding's shape (family next to an existing Name<digits>) are excluded and counted. Near-miss and group versions as in C03; a constructed regression probe runs every root order of a three-shape family over a nested two-shape family.",
          "proptest-driven tape generator of family-rich registries + before/after model of the de-duplication contract + metamorphic idempotence check",
          "DESIGN.md section 5 C04"),
  "C16": ("exploration",
@@ -33,7 +33,7 @@ BUILT = {
          "DESIGN.md section 5 C16"),
  "C17": ("exploration",
          "Coincidence-free generated programs (generics with several instantiations, associated types, two versions, recursion): three random permutations with consistent renumbering must leave the module tokens (or the error) unchanged and induce the same de-duplication groups with outputs identical modulo the suffix bijection; three random reachability-closed sub-registries (PortableRegistry::retain) must yield identical items for every retained path, string-equal descriptions and equally valid examples (C12/C14 oracles) for every retained id; Polkadot sub-registries for the description/example clauses.",
-         "Per-path recursive derives are excluded (they legitimately depend on the first instantiation). Docs are switched off for two-version programs (the kept item takes the first entry's docs). Item identity on Polkadot sub-registries is not claimed.",
+         "Per-path recursive derives are excluded (they legitimately depend on the first instantiation). Docs are switched off for two-version programs (the kept item takes the first entry's docs). Item identity on Polkadot sub-registries is not claimed. A second stratum forces group versions (every definition reachable from a chosen one copied to the same path, one copy mutated); a constructed regression probe runs all 24 arrangements of two mutually recursive two-version paths.",
          "proptest-driven generator + metamorphic relations (permutation with renumbering, restriction by reachability)",
          "DESIGN.md section 5 C17"),
  "C18": ("exploration",
@@ -78,12 +78,12 @@ BUILT = {
          "DESIGN.md section 5 C11"),
  "C12": ("exploration",
          "For every type id of tens of thousands of generated registries (cyclic graphs, empty enums, bit sequences, compact wrappers, maps, 1-tuples, Duration) and of the full Polkadot registry, and for boundary and random seeds, scale_value_from_seed runs under catch_unwind; a returned value must encode against the same id with scale-value, decode back consuming all input to an equal value, be reproducible for the seed, and must exist whenever the reachable types contain no cycle and no empty enum.",
-         "scale-value 0.18 (scale-encode 0.10 / scale-decode 0.16) is the reference codec. char and U256/I256 leaves are excluded from the main search (known findings: the pinned scale-encode cannot encode those primitives) and covered by probes; ids whose example would exceed 5000 leaves are skipped and counted.",
+         "scale-value 0.18 (scale-encode 0.10 / scale-decode 0.16) is the reference codec. char and U256/I256 leaves are excluded from the main search (known findings: the pinned scale-encode cannot encode those primitives) and covered by probes; ids whose example would exceed 5000 leaves are skipped and counted. Termination is decided, not assumed: a case that runs longer than 60 s (ordinary cases take milliseconds) stops the campaign with exit 86 and the driver re-runs that case alone twice with 240 s each; only two killed re-runs are reported as non-termination, a case that finishes alone is exit 2 (inconclusive).",
          "proptest-driven generator + round-trip oracle through a third-party codec + determinism relation + totality predicate",
          "DESIGN.md section 5 C12"),
  "C13": ("exploration",
          "For every type id of tens of thousands of generated registries (mutual recursion, repeated unnamed types, skipped parameters, bit sequences, 1-tuples, Box fields, U256) and of the full Polkadot registry the unformatted description is read by a strict lockstep matcher against the registry (expand-or-name at struct/enum positions with an independent name renderer, every structural token checked literally, consumed exactly), every reachable struct/enum must have been written out at least once, the formatted text must equal it up to whitespace, and the whitespace-free text passes the C15 formatter oracle.",
-         "The description grammar accepted by the matcher is written from the property text and the documented/pinned forms (`struct Unit()`, `enum E{}`, `BitSequence(order, store)`, field-level Box).",
+         "The description grammar accepted by the matcher is written from the property text and the documented/pinned forms (`struct Unit()`, `enum E{}`, `BitSequence(order, store)`, field-level Box). Termination is decided, not assumed: a case that runs longer than 60 s (ordinary cases take milliseconds) stops the campaign with exit 86 and the driver re-runs that case alone twice with 240 s each; only two killed re-runs are reported as non-termination, a case that finishes alone is exit 2 (inconclusive).",
          "proptest-driven generator + lockstep matcher (validity predicate) + whitespace-erasure relation",
          "DESIGN.md section 5 C13"),
  "C14": ("exploration",
@@ -93,7 +93,7 @@ BUILT = {
          "DESIGN.md section 5 C14"),
  "C15": ("exploration",
          "Bounded-exhaustive enumeration of all strings over the 9-character bracket alphabet up to length 7 (quick) / 9 (thorough) plus tape-driven random hostile strings and properly nested strings around the 32-character look-ahead, each checked against a whitespace-only relation and an indentation depth model; every description produced by the C13 check is also fed through it. Exploration is the right level: the function is total over strings, cheap, and its only state is a depth counter, so small-scope exhaustiveness plus boundary-directed generation covers its decision structure.",
-         "Trusts the harness' depth model (validated against the unchanged formatter on the exhaustive stratum) and Rust's char::is_whitespace. The small/large scope decision is not constrained.",
+         "Trusts the harness' depth model (validated against the unchanged formatter on the exhaustive stratum) and Rust's char::is_whitespace. The small/large scope decision is not constrained. Termination is decided, not assumed: a case that runs longer than 60 s (ordinary cases take milliseconds) stops the campaign with exit 86 and the driver re-runs that case alone twice with 240 s each; only two killed re-runs are reported as non-termination, a case that finishes alone is exit 2 (inconclusive).",
          "bounded-exhaustive enumeration + proptest-driven tape generators against a reference depth model and a whitespace-erasure relation",
          "DESIGN.md section 5, C15"),
 }
